@@ -203,6 +203,45 @@ def iter_item_parts(evs):
     return out
 
 
+def scan_covers_list(evs):
+    """None if every explicit scan loop on the path runs over the whole wait list, else a reason.  Accepted sources of the loop's
+    iterator: `wait_list.iter()` [`.enumerate()`], and `wait_list.iter().enumerate().skip(1)` when the head was compared
+    separately through `wait_list.front()` before."""
+    from mir import ci_field_ref
+    front_checked = False
+    for e in evs:
+        if e.name == 'BR' and e.data['label'] == 'cmp_eq':
+            v = e.data['val']
+            ent = v[3][0] if v[0] == 'call' and v[3] else None
+            while ent is not None and ent[0] in ('ref', 'rawptr') and len(ent) > 2 and ent[2] is not None:
+                ent = ent[2]
+            if ent is not None and ent[0] == 'field' and ent[1][0] == 'downcast' and ent[1][1][0] == 'call' \
+                    and ent[1][1][2] == 'std::collections::VecDeque::front' and ci_field_ref(ent[1][1][3][0]) == 'wait_list':
+                front_checked = True
+        if e.name == 'CALL' and e.data['callee'] == 'std::iter::Iterator::next':
+            r = e.data['args'][0]
+            it = r[2] if r[0] in ('ref', 'rawptr') and len(r) > 2 else None
+            if it is None:
+                continue
+            for _ in range(6):
+                if it[0] == 'call' and it[2] in ('std::iter::IntoIterator::into_iter', 'std::iter::Iterator::enumerate') and it[3]:
+                    it = it[3][0]
+                    continue
+                if it[0] == 'call' and it[2] == 'std::iter::Iterator::skip' and len(it[3]) == 2:
+                    n = it[3][1]
+                    if not (n[0] == 'const' and str(n[2]) == '1' and front_checked):
+                        return 'the scan skips entries that were not compared before'
+                    it = it[3][0]
+                    continue
+                break
+            if it[0] == 'call' and it[2] == 'std::collections::VecDeque::iter' and it[3] and ci_field_ref(it[3][0]) == 'wait_list':
+                continue
+            if it[0] == 'call' and it[2] in ('std::iter::Iterator::take', 'std::iter::Iterator::skip', 'std::iter::Iterator::step_by',
+                                            'std::iter::Iterator::filter', 'std::iter::Iterator::take_while', 'std::iter::Iterator::skip_while'):
+                return 'the scan runs over %s(..) of the wait list, not over all of it' % it[2].split('::')[-1]
+    return None
+
+
 def scan_helper(ctx, key, name, want_flag, mutating):
     b = getbody(ctx, key)
     if b is None:
@@ -264,6 +303,9 @@ def scan_helper(ctx, key, name, want_flag, mutating):
             if len(a) < 2 or a[1] != ('param', 2):
                 ctx.violate(key, p, '%s compares entries with something other than its signal argument' % name, at=q.at)
         eqbr = [e for e in evs if e.name == 'BR' and e.data['label'] == 'cmp_eq']
+        why = scan_covers_list(evs)
+        if why:
+            ctx.violate(key, p, '%s: %s' % (name, why))
         posbr = [e for e in evs if e.name == 'BR' and e.data['label'] == 'discr:std::iter::Iterator::position']
         anybr = [e for e in evs if e.name == 'BR' and e.data['label'] == 'discr:std::iter::Iterator::any']
         findbr = [e for e in evs if e.name == 'BR' and e.data['label'] == 'discr:std::iter::Iterator::find']
@@ -323,7 +365,21 @@ def scan_helper(ctx, key, name, want_flag, mutating):
             saw_true = True
             if not eqbr or eqbr[-1].data['outcome'] != 'T':
                 ctx.violate(key, p, '%s returns true without having found an entry equal to the signal' % name)
-            if mutating:
+            front_hit = False
+            if mutating and eqbr and len(muts) == 1 and muts[0].name == 'WL.pop_front' and muts[0].idx > eqbr[-1].idx:
+                # `if wait_list.front() == sig { wait_list.pop_front() }`: the entry that compared equal IS the head, and taking the
+                # head off keeps the order of the others
+                v_ = eqbr[-1].data['val']
+                ent_ = v_[3][0] if v_[0] == 'call' and v_[3] else None
+                from mir import ci_field_ref as _cfr2
+                if ent_ is not None and ent_[0] == 'field' and ent_[1][0] == 'downcast' and ent_[1][1][0] == 'call' \
+                        and ent_[1][1][2] == 'std::collections::VecDeque::front' and _cfr2(ent_[1][1][3][0]) == 'wait_list' \
+                        and not any(e.name.startswith('WL.') and e.name not in ('WL.front', 'WL.len', 'WL.is_empty') and eqbr[-1].idx > e.idx > 0
+                                    and e.idx > [x for x in evs if x.name == 'WL.front'][-1].idx for e in evs):
+                    front_hit = True
+            if mutating and front_hit:
+                pass
+            elif mutating:
                 rem = [e for e in muts if e.name == 'WL.remove']
                 if len(muts) != 1 or len(rem) != 1:
                     ctx.violate(key, p, '%s returns true but the entry was removed %d times with order-preserving remove(i) (mutators: %s)' % (
@@ -414,6 +470,10 @@ def enumerate_of_plain_iter(item):
         if it is None:
             return False
         if it[0] == 'call' and it[2] == 'std::iter::IntoIterator::into_iter':
+            it = it[3][0]
+        if it[0] == 'call' and it[2] == 'std::iter::Iterator::skip' and len(it[3]) == 2:
+            # `iter().enumerate().skip(n)`: skipping AFTER enumerate keeps the absolute positions (scan_covers_list decides whether
+            # the skipped head was looked at separately)
             it = it[3][0]
         if not (it[0] == 'call' and it[2] == 'std::iter::Iterator::enumerate'):
             return False
